@@ -70,12 +70,13 @@ type lkNode struct {
 	lists     []int // indices of the nodes it returns in "nodes"
 	ghosts    int   // additional non-existent nodes it lists
 	item      *lkItem
-	annSilent bool   // does not answer announce_peer / put
-	noID      bool   // the reply's r dict carries no id
-	nodes6    bool   // also returns its list in nodes6 (as v4-mapped garbage is not possible: sends real v6-format entries)
-	genuine   bool   // (getput) the item is a genuine one
-	flavour   string // description of the item
-	form      string // how the address is handed to the server: "" = 4-byte IPv4, "mapped" = 16-byte IPv4-mapped, "v6" = real IPv6
+	annSilent bool            // does not answer announce_peer / put
+	noID      bool            // the reply's r dict carries no id
+	nodes6    bool            // also returns its list in nodes6 (as v4-mapped garbage is not possible: sends real v6-format entries)
+	genuine   bool            // (getput) the item is a genuine one
+	flavour   string          // description of the item
+	form      string          // how the address is handed to the server: "" = 4-byte IPv4, "mapped" = 16-byte IPv4-mapped, "v6" = real IPv6
+	extra     []krpc.NodeInfo // lookups_closest.go: further entries of its nodes (4-byte IP) / nodes6 lists, verbatim
 }
 
 type lkCase struct {
@@ -105,10 +106,11 @@ type lkCase struct {
 	desc     string
 	sub      uint64
 	d10      bool
-	fault    *lkFault // lookups_fault.go: write faults, busy Get consumer, reply order
-	race     *lkRace  // lookups_stop.go: the stop lands inside the processing of a reply / while the consumer pauses
-	block    *lkBlock // lookups_block.go: the server has an IP blocklist and the network tells the lookup about blocked addresses
-	lim      *lkLim   // lookups_limiter.go: a SendLimiter that limits; nodes that do not acknowledge announce_peer / put
+	fault    *lkFault   // lookups_fault.go: write faults, busy Get consumer, reply order
+	race     *lkRace    // lookups_stop.go: the stop lands inside the processing of a reply / while the consumer pauses
+	block    *lkBlock   // lookups_block.go: the server has an IP blocklist and the network tells the lookup about blocked addresses
+	lim      *lkLim     // lookups_limiter.go: a SendLimiter that limits; nodes that do not acknowledge announce_peer / put
+	cl       *lkClosest // lookups_closest.go: result-set / exhaustiveness / cancellation cases (C02, C03, C04)
 }
 
 func (c *lkCase) name() string { return fmt.Sprintf("%s/%s", c.api, c.desc) }
@@ -169,7 +171,8 @@ type lkState struct {
 	consDone   chan struct{}
 	served     map[string]int // addr -> replies with R served
 	gateBroken int32
-	fx         *lkFaultState // lookups_fault.go
+	fx         *lkFaultState   // lookups_fault.go
+	cx         *lkClosestState // lookups_closest.go
 }
 
 func dumpReturn(r *krpc.Return) string {
@@ -244,6 +247,13 @@ func (st *lkState) replyFor(q *lkQuery) []byte {
 		gid[0] ^= byte(0x80 >> uint(g%7))
 		gid[19] = byte(g + 1)
 		nis = append(nis, krpc.NodeInfo{ID: gid, Addr: krpc.NodeAddr{IP: net.IPv4(172, 16, byte(n.addr.Port), byte(g+1)).To4(), Port: 30000 + g}})
+	}
+	for _, e := range n.extra { // lookups_closest.go
+		if len(e.Addr.IP) == 4 {
+			nis = append(nis, e)
+		} else {
+			ret.Nodes6 = append(ret.Nodes6, e)
+		}
 	}
 	if nis != nil {
 		ret.Nodes = nis
@@ -506,7 +516,12 @@ func runLookupOnce(c *lkCase, rep int, report bool) (*lkState, lkResult) {
 	switch c.api {
 	case "bootstrap":
 		go func() {
-			_, err := s.BootstrapContext(ctx)
+			var err error
+			if c.cl != nil && c.cl.k > 0 {
+				err = st.closestTraversal(ctx, s) // lookups_closest.go: traversal.Start wired like Bootstrap, K of the case
+			} else {
+				_, err = s.BootstrapContext(ctx)
+			}
 			res.err = err
 			close(apiDone)
 		}()
@@ -628,10 +643,11 @@ func runLookupOnce(c *lkCase, rep int, report bool) (*lkState, lkResult) {
 					q.n = st.nq
 					st.nq++
 					say("lkissue %d %s => ok", q.n, addrTok(q.dest))
+					st.closestIssued(q, report) // lookups_closest.go
 					if g := st.garbageFor(q); g != nil {
 						st.conn.inject(g, q.dest, 2*time.Second)
 					}
-					if st.replyFor(q) != nil {
+					if st.replyFor(q) != nil && !st.closestWithheld(q) {
 						pending = append(pending, q)
 					}
 				}
@@ -749,6 +765,7 @@ func runLookupOnce(c *lkCase, rep int, report bool) (*lkState, lkResult) {
 				}
 			}
 			say("lkreply %d %d %s %s %s %s %s %s %s => ok", q.n, b2i(hasR), id, tok, payload, v, k, sig, seq)
+			st.closestServed(q, m) // lookups_closest.go
 			before := atomic.LoadInt64(&st.nDeliv)
 			gBefore := 0
 			if c.gated && !stopped {
@@ -884,7 +901,9 @@ func runLookupOnce(c *lkCase, rep int, report bool) (*lkState, lkResult) {
 	if report {
 		st.oracles(&res)
 		st.faultOracles(&res)
+		st.closestOracles(&res) // lookups_closest.go
 	}
+	st.closestQuiescence(&res, report) // lookups_closest.go
 	// ---------------- quiescence ----------------
 	dl := time.Now().Add(2 * time.Second)
 	for s.Stats().OutstandingTransactions != 0 && time.Now().Before(dl) {
@@ -1535,6 +1554,7 @@ func lookupsEngine(seed uint64, tier string, args []string) {
 	cases = append(cases, lookupStopCases(seed, tier, len(cases))...)    // lookups_stop.go
 	cases = append(cases, lookupBlockCases(seed, tier, len(cases))...)   // lookups_block.go
 	cases = append(cases, lookupLimiterCases(seed, tier, len(cases))...) // lookups_limiter.go
+	cases = append(cases, lookupClosestCases(seed, tier, len(cases))...) // lookups_closest.go
 	if only >= 0 && only < len(cases) {
 		cases = cases[:only+1]
 		if from < only {
@@ -1550,6 +1570,9 @@ func lookupsEngine(seed uint64, tier string, args []string) {
 	for i := from; i < len(cases); i++ {
 		if os.Getenv("VERIF_PROP") == "C19" && cases[i].block == nil {
 			continue // C19 is served by the blocklist cases only (same case numbers as in the other properties' runs)
+		}
+		if p := os.Getenv("VERIF_PROP"); (p == "C02" || p == "C03" || p == "C04") && cases[i].cl == nil {
+			continue // C02 / C03 / C04 are served by the cases of lookups_closest.go (the lookup's result set, exhaustiveness, cancellation)
 		}
 		if leak := runLookupCase(&cases[i], base0); leak > 0 {
 			base0 = runtime.NumGoroutine() // what leaked stays; later cases are measured against the new level
